@@ -7,8 +7,9 @@ for f in sorted(glob.glob('/verif/seeded/*/meta.json')):
     name = os.path.basename(os.path.dirname(f))
     first = None
     for h in m.get('history', []):
-        if 'before any strengthening' in h.get('when', ''):
-            first = h['verdicts'].get(m['breaks_property'])
+        # any earlier run in which the change's own check stayed silent
+        if h.get('verdicts', {}).get(m['breaks_property']) == 0:
+            first = 0
     own = m.get('detected_by_own_check')
     others = [k for k in m.get('detected_by', []) if k != m['breaks_property']]
     summ = (m.get('summary') or '').replace('|', '/').replace('\n', ' ')
